@@ -653,3 +653,62 @@ B('j17_shared_lazy_fill_read_before', ['C17'], 'R17.h',
   (RS, "            resp_mime = self._default_mime\n",
        "            resp_mime = self._preferred or self._default_mime\n        if req_format == 'html' and self._preferred is None:\n"
        "            self._preferred = 'text/html'\n"))
+
+# R17.i: the render paths answer 200 and raise only for an explicitly requested unknown format
+_SR_REJECT = "        if req_format and req_format not in self._format_mime_map:\n"
+_SR_QP = "        req_format = request.args.get(self.qp_name)  # explicit GET query param\n"
+T('j17_status_explicit_200', ['C17'], (RS, 'return Response(context, mimetype="text/plain")', 'return Response(context, status=200, mimetype="text/plain")'))
+B('j17_status_positional_204', ['C17'], 'R17.i', (RS, 'return Response(str(context), mimetype="text/plain")', 'return Response(str(context), 204, mimetype="text/plain")'))
+B('j17_status_keyword_203', ['C17'], 'R17.i', (RS, 'return Response(context, mimetype="text/plain")', 'return Response(context, status=203, mimetype="text/plain")'))
+B('j17_status_code_store', ['C17'], 'R17.i',
+  (RS, "        resp.mimetype_params['charset'] = self.encoding\n        return resp\n\n\nclass JSONPRender",
+       "        resp.mimetype_params['charset'] = self.encoding\n        resp.status_code = 202\n        return resp\n\n\nclass JSONPRender"))
+B('j17_status_named_constant', ['C17'], 'R17.i',
+  (TB, "    _html_doctype = '<!doctype html>'\n", "    _html_doctype = '<!doctype html>'\n    _status = 206\n"),
+  (TB, "mimetype='text/html')", "mimetype='text/html', status=self._status)"))
+T('j17_reject_nested_ifs', ['C17'], (RS, _SR_REJECT, "        if req_format:\n          if req_format not in self.formats:\n"))
+T('j17_reject_table_alias', ['C17'], (RS, _SR_REJECT, "        known = self._format_mime_map\n        if req_format and req_format not in known.keys():\n"))
+B('j17_reject_absent_format', ['C17'], 'R17.i', (RS, _SR_REJECT, "        if req_format not in self._format_mime_map:\n"))
+B('j17_reject_guard_on_other_value', ['C17'], 'R17.i', (RS, _SR_REJECT, "        if request.args and req_format not in self._format_mime_map:\n"))
+B('j17_raise_on_empty_result', ['C17'], 'R17.i', (RS, _SR_QP, "        if not context:\n            raise ValueError('nothing to render')\n" + _SR_QP))
+B('j17_raise_in_tabular', ['C17'], 'R17.i',
+  (TB, "        content_parts = [self._html_wrapper]\n", "        if len(context) == 0:\n            raise LookupError('nothing to tabulate')\n        content_parts = [self._html_wrapper]\n"))
+B('j17_tabular_label_plain', ['C17'], 'R17.e', (TB, "mimetype='text/html')", "mimetype='text/plain')"))
+B('j17_tabular_label_missing', ['C17'], 'R17.e', (TB, "return Response('\\n'.join(content_parts), mimetype='text/html')", "return Response('\\n'.join(content_parts))"))
+T('j17_tabular_label_constant', ['C17'],
+  (TB, "    _html_doctype = '<!doctype html>'\n", "    _html_doctype = '<!doctype html>'\n    _mimetype = 'text/html'\n"),
+  (TB, "mimetype='text/html')", "mimetype=self._mimetype)"))
+
+# R17.k: provenance and precedence of the negotiated mime
+_SR_F = "        resp_mime = self._format_mime_map.get(req_format)\n"
+_SR_A = "        if not resp_mime and request.accept_mimetypes:\n            resp_mime = request.accept_mimetypes.best_match(self.mimetypes)\n"
+_SR_D = "        if resp_mime not in self._mime_format_map:\n            resp_mime = self._default_mime\n"
+T('j17_neg_if_elif_chain', ['C17'],
+  (RS, _SR_NEG, '''        if req_format:
+            resp_mime = self._format_mime_map[req_format]
+        elif request.accept_mimetypes:
+            resp_mime = request.accept_mimetypes.best_match(list(self._format_mime_map.values()))
+        else:
+            resp_mime = None
+        if resp_mime not in self.mimetypes:
+            resp_mime = self._default_mime
+'''))
+T('j17_neg_one_expression', ['C17'],
+  (RS, _SR_F + _SR_A, "        accepted = request.accept_mimetypes\n"
+       "        resp_mime = self._format_mime_map.get(req_format) or (accepted and accepted.best_match(self.mimetypes))\n"))
+T('j17_neg_served_constant', ['C17'], (RS, 'best_match(self.mimetypes)', "best_match(('application/json', 'text/html'))"))
+T('j17_neg_default_conditional_expression', ['C17'],
+  (RS, _SR_D, "        resp_mime = resp_mime if resp_mime in self._mime_format_map else self._default_mime\n"))
+B('j17_neg_accept_first', ['C17'], 'R17.k',
+  (RS, _SR_F + _SR_A, "        resp_mime = None\n        if request.accept_mimetypes:\n            resp_mime = request.accept_mimetypes.best_match(self.mimetypes)\n"
+       "        if not resp_mime:\n            resp_mime = self._format_mime_map.get(req_format)\n"))
+B('j17_neg_default_overrides', ['C17'], 'R17.k', (RS, "        if resp_mime not in self._mime_format_map:\n", "        if resp_mime in self._mime_format_map:\n"))
+B('j17_neg_default_in_else', ['C17'], 'R17.k',
+  (RS, _SR_A + _SR_D, _SR_A + "        else:\n            resp_mime = self._default_mime\n"))
+B('j17_neg_offered_html_only', ['C17'], 'R17.k', (RS, 'best_match(self.mimetypes)', "best_match(['text/html'])"))
+B('j17_neg_offered_formats', ['C17'], 'R17.k', (RS, 'best_match(self.mimetypes)', "best_match(self.formats)"))
+B('j17_neg_format_ignored', ['C17'], 'R17.k', (RS, _SR_F, "        resp_mime = None\n"))
+B('j17_neg_accept_ignored', ['C17'], 'R17.k', (RS, _SR_A, ""))
+B('j17_neg_lookup_by_other_parameter', ['C17'], 'R17.k', (RS, _SR_F, "        resp_mime = self._format_mime_map.get(request.args.get('callback'))\n"))
+B('j17_neg_raw_mime_parameter', ['C17'], 'R17.k', (RS, _SR_F, "        resp_mime = self._format_mime_map.get(req_format) or request.args.get('mime')\n"))
+B('j17_neg_accept_of_other_header', ['C17'], 'R17.k', (RS, _SR_A, "        if not resp_mime and request.accept_languages:\n            resp_mime = request.accept_languages.best_match(self.mimetypes)\n"))
